@@ -62,6 +62,10 @@ class Check:
                 if key not in [k["key"] for k in self.known_hits]:
                     self.known_hits.append(dict(key=key, what=kf.get("what", what)))
                 return False
+        self.viol_counts = getattr(self, "viol_counts", {})
+        self.viol_counts[key] = self.viol_counts.get(key, 0) + 1
+        if self.viol_counts[key] > 3:      # report at most three instances per failing clause / input class
+            return True
         os.makedirs(os.path.join(OUT, "replay"), exist_ok=True)
         path = os.path.join(OUT, "replay", "%s-%d.json" % (self.pid, len(self.violations)))
         with open(path, "w") as f:
